@@ -13,6 +13,7 @@ labels are not range-checked when read (`pushInstr` defers them), see T-asm.
 -/
 import EtkVerif.Asm.Corollaries
 import EtkVerif.Asm.Ingest
+import EtkVerif.Props.C13
 namespace EtkVerif.C09
 open Asm
 
@@ -38,4 +39,44 @@ theorem C09_no_output (fs : FS) (cwd : PathC) (rnd : Nat → Nat) (fuel : Nat) (
     ¬ ∃ bytes tr, ingestFile fs cwd rnd fuel path = .ok (bytes, tr) := by
   rintro ⟨b, t, h'⟩; rw [h] at h'; cases h'
 
+/-- C09 for whole programs: when the assembler model returns bytes, there are the expanded items of the program, a final
+layout (label table `ls`, push widths `ws`, every width between 1 and 32) under which those items are emitted to exactly
+these bytes, and EVERY fixed-width push `pushN e` among the items has a value `0 ≤ v < 256^N` under that final layout,
+every `%push(e)` a value `0 ≤ v < 256^w ≤ 2^256` (w its final width) — wherever it stands, whether `e` mentions labels
+defined before or after it, macro arguments, or constants -/
+theorem C09_assemble (rnd : Nat → Nat) (fuel k : Nat) (ops : RawOps) (bytes : List Nat) (k' : Nat)
+    (h : assemble rnd fuel { fresh := k } ops = .ok (bytes, k')) :
+    ∃ (f : Nat) (ms : List (String × MacroDef)) (items : List Item) (ls : List (String × Option Nat)) (ws : List Nat),
+      declareMacros ops.toList [] = .ok ms ∧ Spec.flattenAll rnd f ms k ops = .ok (items, k') ∧
+      (∀ w ∈ ws, 1 ≤ w ∧ w ≤ 32) ∧
+      emit ⟨ls, ms, none, 0⟩ items ws = .ok bytes ∧
+      (∀ pre post code e, items = pre ++ Item.op code (some e) :: post →
+        ∃ v : Int, eval evalFuel ⟨ls, ms, none, 0⟩ e = .ok v ∧ 0 ≤ v ∧ v.toNat < 256 ^ immLen code) ∧
+      (∀ pre post e, items = pre ++ Item.push e :: post →
+        ∃ v : Int, eval evalFuel ⟨ls, ms, none, 0⟩ e = .ok v ∧ 0 ≤ v ∧
+          v.toNat < 256 ^ (ws.drop (pushCount pre)).headD 1 ∧ (ws.drop (pushCount pre)).headD 1 ≤ 32) := by
+  obtain ⟨f, ms, items, _, hd, hf, _, _, hfin⟩ := (C13.C13_iff rnd fuel k ops bytes k').1 h
+  rw [finish_unfold] at hfin
+  simp only [List.isEmpty_nil, Bool.not_true, Bool.false_eq_true, if_false] at hfin
+  have hst := layoutLoop_stable
+    { ready := items, labels := (Spec.itemLabels items).map (fun l => (l, some 0)), macros := ms } (pushCount items) rfl
+  refine ⟨f, ms, items, _, _, hd, hf, hst.2.1, hfin, ?_, ?_⟩
+  · intro pre post code e hit
+    subst hit
+    obtain ⟨_, _, v, _, hv, h0, hlt, _⟩ := C09_pushN _ pre post code e _ bytes hfin
+    exact ⟨v, hv, h0, hlt⟩
+  · intro pre post e hit
+    subst hit
+    obtain ⟨_, _, v, _, hv, h0, hlt, _⟩ := C09_push _ pre post e _ bytes hfin
+    refine ⟨v, hv, h0, hlt, ?_⟩
+    -- the width read at this push's index is one of the final widths (or the default 1)
+    have hb := hst.2.1
+    revert hb
+    generalize (layoutLoop _ _ _).2 = ws
+    intro hb
+    cases hd' : ws.drop (pushCount pre) with
+    | nil => simp
+    | cons w rest =>
+      have : w ∈ ws := List.mem_of_mem_drop (by rw [hd']; exact List.mem_cons_self)
+      simpa using (hb w this).2
 end EtkVerif.C09
